@@ -65,6 +65,26 @@ class FakePath:
         FakePath.env["exists_asked"].append(self.p)
         return FakePath.env["exists"]
 
+    is_file = exists  # other ways of asking the same question
+
+    def __fspath__(self):
+        return self.p
+
+    @property
+    def name(self):
+        return self.p.rsplit("/", 1)[-1]
+
+    @property
+    def parent(self):
+        return FakePath(self.p.rsplit("/", 1)[0] if "/" in self.p else ".")
+
+    def mkdir(self, *a, **k):
+        return None
+
+    def __getattr__(self, name):
+        # anything else the code under test may start to ask of a path is outside this model: inconclusive, never an alarm
+        raise Inconclusive(f"FakePath does not model Path.{name}")
+
     def as_posix(self):
         return self.p
 
@@ -107,7 +127,7 @@ def _scenario(A, B, exists, outcome, flags):
     FakePath.env = env
     loaded = MazeDataset(cfg=B, mazes=_toy_mazes(3, 1)) if B is not None else None
 
-    def read(cls, path, zanj=None):
+    def read(cls, path, *a, **k):
         env["read"].append(str(path))
         if outcome == "return":
             return loaded
@@ -123,7 +143,7 @@ def _scenario(A, B, exists, outcome, flags):
         gen_box["mazes"] = list(g.mazes)
         return g
 
-    def save(self, path, zanj=None):
+    def save(self, path, *a, **k):
         env["save"].append((self, str(path)))
 
     def download(cls, cfg, **kw):
